@@ -31,6 +31,40 @@ import (
 // (requests whose handler never started may be dropped), idle keep-alive connections were closed (Shutdown does not
 // wait for them), Done() is closed for a handler that waits for it. Nothing is asked when Shutdown returns an error.
 
+// server side of a connection: records writes the server attempted after the connection had been closed under it
+type c15srvConn struct {
+	net.Conn
+	o *c15obs
+}
+
+func (c *c15srvConn) Write(p []byte) (int, error) {
+	n, err := c.Conn.Write(p)
+	if err != nil {
+		c.o.failedWrites++
+	}
+	return n, err
+}
+
+func (c *c15srvConn) Close() error {
+	if mcrt.CurrentID() == 0 { // the main thread is the Shutdown caller: this is closeIdleConns
+		c.o.closedByShutdown++
+	}
+	return c.Conn.Close()
+}
+
+type c15listener struct {
+	net.Listener
+	o *c15obs
+}
+
+func (l *c15listener) Accept() (net.Conn, error) {
+	c, err := l.Listener.Accept()
+	if err != nil {
+		return nil, err
+	}
+	return &c15srvConn{Conn: c, o: l.o}, nil
+}
+
 type c15nopLogger struct{}
 
 func (c15nopLogger) Printf(string, ...any) {}
@@ -68,6 +102,8 @@ type c15obs struct {
 	serveErr         error
 	dialAfterOK      bool
 	clientsDone      int
+	failedWrites     int // server-side writes that failed (connection already closed)
+	closedByShutdown int // server-side connections closed by the Shutdown caller (closeIdleConns)
 	calledAt         time.Duration // virtual time at which Shutdown was called
 	blockedUntil     time.Duration // latest virtual time at which the Shutdown caller was found blocked inside the call
 	notes            []string
@@ -170,7 +206,7 @@ func c15body(sc c15scn) func() {
 		}
 		ln := fasthttputil.NewInmemoryListener()
 		mcrt.GoNamed("serve", func() {
-			o.serveErr = s.Serve(ln)
+			o.serveErr = s.Serve(&c15listener{Listener: ln, o: o})
 			o.serveReturned = true
 			o.ev("serve returned")
 		})
@@ -393,7 +429,13 @@ func c15check(sc c15scn) func(x *mcrt.Exec) (string, string, string) {
 				if c15has(o.startedLate, p) {
 					late = " (handler started after Shutdown was called)"
 				}
-				return cls, "response-lost-" + role(p), fmt.Sprintf("handler of %s started%s and Shutdown returned nil, but the client never received its response; started=%v; events: %s", p, late, o.started, strings.Join(o.log, " / "))
+				sig, how := "response-lost-"+role(p), ""
+				if o.closedByShutdown > 0 {
+					// Shutdown closed the connection as idle although the response had not been written out yet
+					sig += "-conn-closed-as-idle-by-shutdown"
+					how = fmt.Sprintf(" (closeIdleConns closed the connection as idle before the response was written out; failed server-side writes: %d)", o.failedWrites)
+				}
+				return cls, sig, fmt.Sprintf("handler of %s started%s and Shutdown returned nil, but the client never received its response%s; started=%v; events: %s", p, late, how, o.started, strings.Join(o.log, " / "))
 			}
 		}
 		return cls, "", ""
@@ -460,6 +502,9 @@ func TestVerif_C15(t *testing.T) {
 	}
 	var scs []mcx.Scenario
 	for _, sc := range list {
+		if f := os.Getenv("C15_ONLY"); f != "" && !strings.Contains(sc.name, f) {
+			continue
+		}
 		bb := b
 		switch sc.size {
 		case 'M':
